@@ -38,7 +38,8 @@ PLANS = {
     "C17": [("runsim", "asan", "pointers", 80000, 1500000), ("runsim", "noexc", "pointers", 40000, 500000), ("runsim", "asan", "lifecycle", 20000, 300000)],
     "C18": [("cachesim", "asan", "cache", 1500000, 12000000), ("cachesim", "asan", "global", 600000, 6000000)],
     "C19": [("mocksim", "asan", "cfront", 48000, 800000)],
-    "C20": [("runsim", "asan", "teamcity", 100000, 1200000), ("runsim", "noexc", "teamcity", 40000, 200000)],
+    "C20": [("runsim", "asan", "teamcity", 100000, 1200000), ("runsim", "noexc", "teamcity", 40000, 200000),
+            ("runsim", "plain", "process", 8000, 150000, ("C11",))],      # TeamCity output over forked children: a test the parent closes too early shows up as a child event the parent never recorded
 }
 # properties whose statement contains a memory-safety / no-crash / no-hang clause: a crash class is attributed to them
 CRASH_CLAUSE = {"C01", "C05", "C10", "C11", "C14", "C17", "C18"}
